@@ -192,6 +192,8 @@ VARIANTS = {
     "san": ["-O1", "-g", "-fsanitize=address,undefined", "-fno-sanitize-recover=all",
             "-fno-omit-frame-pointer", "-D_GLIBCXX_ASSERTIONS"],
     "tsan": ["-O1", "-g", "-fsanitize=thread"],
+    # measurement only (tools/coverage.py): which lines of /repo the correspondence runs execute
+    "cov": ["-O0", "-g", "--coverage", "-fprofile-update=atomic"],
 }
 
 
@@ -206,6 +208,8 @@ def harness_build(variant="plain", extra_units=None):
     """Compile /repo/src/*.cpp and the harness against /repo's current working tree with the hook
     guard on.  Objects are cached per translation unit under .build/obj keyed by content, so an
     edited tree is always rebuilt.  Returns the path of the `drive` binary."""
+    if variant == "plain" and os.environ.get("VERIF_COVERAGE") == "1":
+        variant = "cov"
     flags = ["-std=c++17", "-D" + GUARD, "-pthread", "-w",
              "-I" + os.path.join(REPO, "src"), "-I" + os.path.join(REPO, "include"),
              "-I" + os.path.join(REPO, "include", "teakra", "impl"), "-I" + HARNESS] + VARIANTS[variant]
@@ -498,6 +502,10 @@ def write_evidence(prop, tier, seed, coverage, assumptions, wall_s, violations):
     ev = {"property_id": prop, "tier": tier, "seed": seed, "level": "proof", "coverage": coverage,
           "assumptions": assumptions, "wall_s": round(wall_s, 2), "violations": violations}
     p = os.path.join(ROOT, "evidence", prop + ".json")
+    if os.path.realpath(REPO) != "/repo" or os.environ.get("VERIF_COVERAGE") == "1":
+        # a run against another tree (seeded change in a scratch worktree) or a measurement run is not evidence about /repo
+        os.makedirs(os.path.join(BUILD, "evidence-other"), exist_ok=True)
+        p = os.path.join(BUILD, "evidence-other", prop + ".json")
     with open(p + ".tmp", "w") as f:
         json.dump(ev, f, indent=1, sort_keys=False)
     os.replace(p + ".tmp", p)
